@@ -1,6 +1,8 @@
 """Hypothesis strategies for EXPRESS schemas, *codegen profile*: the subset the C++/Python generators
 document and the unitary schemas exercise.  Valid by construction (declared-before-use for types,
 globally consistent names).  Every random choice is a Hypothesis draw."""
+import copy
+
 from hypothesis import strategies as st
 
 from expmodel import SIMPLE, T, named, agg, Schema
@@ -341,7 +343,7 @@ def schemas(draw, cfg=None):
             if mode == "derived" and kind[0] == "simple" and kind[1] != "BINARY":
                 lit = {"INTEGER": "1", "REAL": "1.5", "NUMBER": "2.5", "STRING": "'k'", "BOOLEAN": "TRUE",
                        "LOGICAL": "UNKNOWN"}[kind[1]]
-                e["derived"].append({"name": x["name"], "type": x["type"], "expr": lit, "redecl": sch.ent(owner)["name"]})
+                e["derived"].append({"name": x["name"], "type": copy.deepcopy(x["type"]), "expr": lit, "redecl": sch.ent(owner)["name"]})
             elif mode == "explicit":
                 newt = None
                 if kind[0] == "entity":
@@ -349,7 +351,7 @@ def schemas(draw, cfg=None):
                     if ds:
                         newt = named(sch.ent(draw(st.sampled_from(ds)))["name"])
                 if newt is None and x["optional"]:
-                    newt = x["type"]
+                    newt = copy.deepcopy(x["type"])
                 if newt is not None:
                     e["attrs"].append({"name": x["name"], "type": newt, "optional": False, "redecl": sch.ent(owner)["name"]})
                 else:
